@@ -505,7 +505,13 @@ def c13(tier):
     bindir = common.build_redo()
     d = common.workdir('C13_' + tier)
     cov, tool = funcheck.candidates_part(tier, d, verdict, exe, bindir)
-    cov['traces_validated_against_impl'] = cov.get('dofiles_compared', 0) + cov.get('whichdo_and_builds', 0)
+    # how the chosen script is executed: the first-line (interpreter) rule, RedoExec
+    ecov, etool = funcheck.exec_part(tier, d, verdict, bindir)
+    cov.update(ecov)
+    cov['states'] = cov.get('states', 0) + ecov.get('exec_states', 0)
+    tool += etool
+    cov['traces_validated_against_impl'] = cov.get('dofiles_compared', 0) + cov.get('whichdo_and_builds', 0) + \
+        ecov.get('exec_real_builds', 0)
     cov['exhaustive'] = True
     cov['note'] = ('TLC: the candidate list, script directory, $1 and $2 of every target (directory depth 0..n over {d, e.f}, every '
                    'file name over {a,.} up to the bound) with the order laws (specific rule first, a directory exhausted before its '
@@ -514,7 +520,10 @@ def c13(tier):
                    'class (depth, dots, leading/trailing dot, level and kind of the chosen rule) a project is materialised in which '
                    'exactly the chosen candidate (and sometimes lower ones) exists: redo-whichdo must print exactly the candidates '
                    'up to it, the real build must run it in its directory with the predicted $1/$2 and a $3 beside the target; then '
-                   'a higher-priority script is added (rebuild by it) and removed again (rebuild by the old choice)')
+                   'a higher-priority script is added (rebuild by it) and removed again (rebuild by the old choice); RedoExec: the '
+                   'command line of the job for every first line of the .do file made of up to 3 (4) tokens over {#! # ! /bin/sh '
+                   '/usr/bin/env blank tab -e sh -x} (a program always exists, it is sh or an absolute path, the script and its '
+                   'arguments come last), and a real build per sampled line compared with the predicted command line run directly')
     return finish('C13', tier, verdict, cov, tool, time.time() - t0, level='model_checking', assumptions=ASSUME_PATHS)
 
 
